@@ -17,6 +17,10 @@ Layer B (drivers, on results of real calls):
                         output x {output file on, off} x parameter representations (angles list/array/.tlt file; indices
                         list/array/file/csv, 0- and 1-based; axes str/list; None vs full size; factor int/str) agree
   interleave            even/odd halves put back alternately give the input
+  params_unchanged      the parameter objects (index array/list, angle array/list, axes list, sizes) that the configurations
+                        of one case SHARE equal their pristine copies after every call (diagnostic witness; the property-level
+                        verdicts are same_result and the per-operation monitors, which the driver also evaluates against the
+                        ORIGINAL parameter values of the case)
   flip_twice            flipping along an axis, then again (second call fed with the returned array in its declared
                         order, or with the MRC file the first call wrote), restores the input
 """
@@ -271,7 +275,7 @@ def setup(ctx):
     f_crop = monitors.wrap(ctx, tiltstack, "crop", "crop", _post_crop, _app_crop)
     f_bin = monitors.wrap(ctx, tiltstack, "bin", "bin", _post_bin, _app_bin)
     f_idx = monitors.wrap(ctx, ioutils, "indices_load", "indices_load", _post_idx, _app_idx)
-    ctx.declare("output_file", "output_file_bin_int16_fractional", "same_result", "interleave", "flip_twice")
+    ctx.declare("output_file", "output_file_bin_int16_fractional", "same_result", "interleave", "flip_twice", "params_unchanged")
     TS = tiltstack.TiltStack
     monitors.trace(ctx, [
         ("TiltStack.__init__", TS.__init__, {"load_file": "self.data = cryomap.read(tilt_stack, transpose=False)",
@@ -440,22 +444,28 @@ def gen(ctx, i, cls):
         rot = int(rng.integers(0, 4))
         for kk, v in enumerate(vs):
             if op == "sort":
-                v["ang"] = ["list", "array", "file", "array32"][(kk + rot) % 4]
-                if cls == "angles_hostile" and kk == 3:
+                v["ang"] = ["list", "array", "file", "array32"][(kk // 2 + rot) % 4]
+                if cls == "angles_hostile" and kk >= 2:
                     v["ang"] = "file"
             elif op == "remove":
-                pool = ["txt", "csv", "csv_removed", "txt"] if cls == "idx_files" else ["list", "txt", "array", "csv", "array_i32", "csv_removed"]
-                v["idx"] = pool[(kk + rot) % len(pool)]
-                v["from1"] = bool(rng.random() < 0.5) if kk else True
-                if kk == 1:
-                    v["from1"] = False
+                pool = ["txt", "csv", "csv_removed", "txt"] if cls == "idx_files" else ["array", "list", "array_i32", "txt", "array", "csv", "array_i32", "csv_removed"]
+                if kk == 0:
+                    rot, first1 = int(rng.integers(0, len(pool))), bool(rng.random() < 0.5)
+                v["idx"] = pool[(kk // 2 + rot) % len(pool)]
+                v["from1"] = first1 if kk < 2 else not first1
             elif op == "flip":
-                v["axes_as"] = "str" if (len(axes) == 1 and rng.random() < 0.5) else "list"
+                if kk % 2 == 0:
+                    as_str = bool(len(axes) == 1 and rng.random() < 0.5)
+                v["axes_as"] = "str" if as_str else "list"
             elif op == "crop":
                 v["none_for_full"] = bool(rng.random() < 0.5)
-                v["num"] = str(rng.choice(["int", "npint"]))
+                if kk % 2 == 0:
+                    num = str(rng.choice(["int", "npint"]))
+                v["num"] = num
             elif op == "bin":
-                v["num"] = str(rng.choice(["int", "npint", "str"]))
+                if kk % 2 == 0:
+                    num = str(rng.choice(["int", "npint", "str"]))
+                v["num"] = num
         if op == "bin" and cls in ("i16_random", "i16_extremes"):
             vs[0]["out_file"] = vs[1]["out_file"] = True       # written file of an int16 binning: array and file input
         variants[op] = vs
@@ -577,24 +587,49 @@ def _num(x, how):
     return {"int": int(x), "npint": np.int64(x), "str": str(x)}[how]
 
 
-def _run_variant(ctx, case, op, k, v):
+def _shared(objs, key, build):
+    """one parameter object per (operation, representation) and case: every configuration that uses this representation
+    receives the SAME object, as a user holding it in a variable would; a pristine copy is kept next to it"""
+    if key not in objs:
+        o = build()
+        objs[key] = (o, o.copy() if isinstance(o, np.ndarray) else (list(o) if isinstance(o, list) else o))
+    return objs[key][0]
+
+
+def _params_unchanged(ctx, objs, used, op, v):
+    for key in used:
+        o, c = objs[key]
+        if isinstance(o, np.ndarray):
+            same = o.dtype == c.dtype and o.shape == c.shape and bool(np.array_equal(o, c))
+        else:
+            same = type(o) is type(c) and o == c
+        ctx.check("params_unchanged", same, None if same else {"op": FN[op], "parameter": [str(q) for q in key], "type": type(o).__name__,
+                                                             "before_first_call": c, "now": o, "config": v})
+
+
+def _run_variant(ctx, case, op, k, v, objs):
     ts = ctx.ts
+    used = []
+
+    def shared(key, build):
+        used.append(key)
+        return _shared(objs, key, build)
     stack = _stack_input(ctx, case, v)
     out = _path(ctx, case, "%s%d_out%s" % (op, k, case["fmt"]["out_ext"])) if v["out_file"] else None
     kw = dict(input_order=v["in_order"], output_order=v["out_order"])
     if op == "sort":
-        args = (stack, _angles_input(ctx, case, v, k))
+        args = (stack, shared(("angles", v["ang"]), lambda: _angles_input(ctx, case, v, k)))
         kw["output_file"] = out
         _count(ctx, "angles_as:" + v["ang"])
     elif op == "remove":
-        args = (stack, _indices_input(ctx, case, v, k))
+        args = (stack, shared(("indices", v["idx"], v["from1"]), lambda: _indices_input(ctx, case, v, k)))
         kw.update(numbered_from_1=v["from1"], output_file=out)
         _count(ctx, "indices_as:%s/%s" % (v["idx"], "1-based" if v["from1"] else "0-based"))
     elif op == "split":
         args = (stack,)
         kw["output_file_prefix"] = out[:-4] if out else None
     elif op == "flip":
-        args = (stack, case["axes"][0] if v["axes_as"] == "str" else list(case["axes"]))
+        args = (stack, shared(("axes", v["axes_as"]), lambda: case["axes"][0] if v["axes_as"] == "str" else list(case["axes"])))
         kw["output_file"] = out
     elif op == "crop":
         n, H, W = case["nyx"].shape
@@ -603,12 +638,14 @@ def _run_variant(ctx, case, op, k, v):
             w = None if w == W else w
             h = None if h == H else h
         args = (stack,)
-        kw.update(new_width=_num(w, v["num"]), new_height=_num(h, v["num"]), output_file=out)
+        kw.update(new_width=shared(("new_width", v["num"], w), lambda: _num(w, v["num"])),
+                  new_height=shared(("new_height", v["num"], h), lambda: _num(h, v["num"])), output_file=out)
     else:
-        args = (stack, _num(case["bin"], v["num"]))
+        args = (stack, shared(("factor", v["num"]), lambda: _num(case["bin"], v["num"])))
         kw["output_file"] = out
     _count(ctx, "config:in=%s%s,out=%s,file=%d" % (v["in"], "/" + v["in_order"], v["out_order"], int(bool(out))))
     ok, res = ctx.call(FN[op], getattr(ts, FN[op]), *args, **kw)
+    _params_unchanged(ctx, objs, used, op, v)
     if not ok:
         return None
     parts = res if op == "split" else (res,)
@@ -637,16 +674,41 @@ def _same(case, op, r0, r1):
     return None
 
 
+def _judge_original(ctx, case, op, v, r):
+    """driver-side: the result against the selection computed from the ORIGINAL parameter values of the case (never from
+    the parameter objects, which the calls share)"""
+    nyx = case["nyx"]
+    if op == "bin":
+        w = orc.diff_binned(r[0], nyx, case["bin"])
+    else:
+        if op == "sort":
+            exp = (orc.exp_sort(nyx, case["angles"])[0],)
+        elif op == "remove":
+            exp = (orc.exp_remove(nyx, case["idx0"])[0],)
+        elif op == "split":
+            exp = orc.exp_split(nyx)
+        elif op == "flip":
+            exp = (orc.exp_flip(nyx, case["axes"]),)
+        else:
+            exp = (orc.exp_crop(nyx, case["crop"][0], case["crop"][1]),)
+        w = None
+        for got, e in zip(r, exp):
+            w = w or orc.diff_exact(got, e)
+    ctx.check(FN[op], w is None, w and dict(w, judged="driver: against the original parameter values of the case", config=v))
+
+
 def run_case(ctx, case):
     ts = ctx.ts
     rng = ctx.rng(case["i"], 1)
     nyx = case["nyx"]
+    objs = {}
     for op in OPS:
         outs = []
         for k, v in enumerate(case["variants"][op]):
-            r = _run_variant(ctx, case, op, k, v)
+            r = _run_variant(ctx, case, op, k, v, objs)
             if r is not None:
                 outs.append((k, v, r))
+                _judge_original(ctx, case, op, v, r)
         for k, v, r in outs[1:]:
             w = _same(case, op, outs[0][2], r)
             ctx.check("same_result", w is None, w and dict(w, op=FN[op], first_config=outs[0][1], other_config=v))
